@@ -27,10 +27,27 @@ type sstEnt struct {
 	Exp  uint64 `json:"exp"`
 }
 
-// sstTarget: Search(key, &maxvs), Seek(key)+Next forward and reverse.
+// sstTarget: key = KeyWithTs(base, Ver) where base is the base key of entry
+// Idx (Idx >= 0) or Base (hex); Search(key, &maxvs), Seek(key)+Next forward and reverse.
 type sstTarget struct {
-	Key   string `json:"key"`
+	Idx   int    `json:"idx"`
+	Base  string `json:"base,omitempty"`
+	Ver   uint64 `json:"ver"`
 	MaxVs uint64 `json:"maxvs"`
+}
+
+func (t sstTarget) key(d *sstDesc) []byte {
+	if t.Idx >= 0 {
+		return kv.KeyWithTs(kv.ParseKey(unhex(d.Entries[t.Idx].Key)), t.Ver)
+	}
+	return kv.KeyWithTs(unhex(t.Base), t.Ver)
+}
+
+func (t sstTarget) term() string {
+	if t.Idx >= 0 {
+		return fmt.Sprintf("T (TB %d %d) %d", t.Idx, t.Ver, t.MaxVs)
+	}
+	return fmt.Sprintf("T (TX %s %d) %d", corr.Hex(unhex(t.Base)), t.Ver, t.MaxVs)
 }
 
 type sstDesc struct {
@@ -114,7 +131,11 @@ func observe(st *lsm.VerifSST, es []lsm.VerifEntry, d *sstDesc, stats *sstStats)
 	starts := map[int]bool{} // entry indices that start a block other than the first
 	pos := 0
 	for i, b := range blocks {
-		lay[i] = fmt.Sprintf("L %s %d %d", corr.Hex(b.BaseKey), b.Entries, b.Len)
+		if pos < len(es) && bytes.Equal(es[pos].Key, b.BaseKey) {
+			lay[i] = fmt.Sprintf("L %d %d %d", pos, b.Entries, b.Len)
+		} else {
+			lay[i] = fmt.Sprintf("LX %s %d %d", corr.Hex(b.BaseKey), b.Entries, b.Len)
+		}
 		if i > 0 {
 			starts[pos] = true
 		}
@@ -139,7 +160,7 @@ func observe(st *lsm.VerifSST, es []lsm.VerifEntry, d *sstDesc, stats *sstStats)
 		return corr.List(os)
 	}
 	for _, q := range d.Targets {
-		k := unhex(q.Key)
+		k := q.key(d)
 		e, found, _, err := st.Search(k, q.MaxVs)
 		if err != nil {
 			return "", fmt.Errorf("Search(%x): %w", k, err)
@@ -220,7 +241,7 @@ func sstCase(c *corr.Ctx, d *sstDesc) (corr.Case, error) {
 	}
 	tg := make([]string, len(d.Targets))
 	for i, t := range d.Targets {
-		tg[i] = fmt.Sprintf("T %s %d", corr.Hex(unhex(t.Key)), t.MaxVs)
+		tg[i] = t.term()
 	}
 	if reopened == built {
 		reopened = "AsBuilt"
@@ -268,7 +289,7 @@ func genUserKey(r *rand.Rand, prefix []byte) []byte {
 	return k
 }
 
-func genSstDesc(r *rand.Rand, maxEntries int) *sstDesc {
+func genSstDesc(r *rand.Rand, maxEntries, maxTargets int) *sstDesc {
 	d := &sstDesc{}
 	d.BlockSize = corr.Pick(r, []int{64, 64, 256, 256, 4096, 100, 150, 40})
 	d.BloomFP = corr.Pick(r, []float64{0, 0.01, 0.01, 0.3, 0.0001})
@@ -328,49 +349,47 @@ func genSstDesc(r *rand.Rand, maxEntries int) *sstDesc {
 	}
 	// targets: every stored key and its neighbours
 	tseen := map[string]bool{}
-	var targets [][]byte
-	addT := func(k []byte) {
+	var targets []sstTarget
+	addT := func(t sstTarget) {
+		k := t.key(d)
 		if len(k) > 8 && !tseen[string(k)] {
 			tseen[string(k)] = true
-			targets = append(targets, k)
+			targets = append(targets, t)
 		}
 	}
-	for _, k := range keys {
-		addT(k)
+	for i, k := range keys {
 		base, ver := kv.ParseKey(k), kv.ParseTs(k)
+		addT(sstTarget{Idx: i, Ver: ver})
 		if ver > 0 {
-			addT(kv.KeyWithTs(base, ver-1))
+			addT(sstTarget{Idx: i, Ver: ver - 1})
 		}
 		if ver < math.MaxUint64 {
-			addT(kv.KeyWithTs(base, ver+1))
+			addT(sstTarget{Idx: i, Ver: ver + 1})
 		}
-		addT(kv.KeyWithTs(base, math.MaxUint64))
-		addT(kv.KeyWithTs(base, 0))
-		addT(kv.KeyWithTs(append(append([]byte(nil), base...), 0), corr.Pick(r, sstVersions)))
+		addT(sstTarget{Idx: i, Ver: math.MaxUint64})
+		addT(sstTarget{Idx: i, Ver: 0})
+		addT(sstTarget{Idx: -1, Base: hex.EncodeToString(append(append([]byte(nil), base...), 0)), Ver: corr.Pick(r, sstVersions)})
 		if len(base) > 1 {
-			addT(kv.KeyWithTs(base[:len(base)-1], corr.Pick(r, sstVersions)))
+			addT(sstTarget{Idx: -1, Base: hex.EncodeToString(base[:len(base)-1]), Ver: corr.Pick(r, sstVersions)})
 		}
 		if r.Intn(4) == 0 {
-			addT(kv.KeyWithTs(genUserKey(r, prefix), corr.Pick(r, sstVersions)))
+			addT(sstTarget{Idx: -1, Base: hex.EncodeToString(genUserKey(r, prefix)), Ver: corr.Pick(r, sstVersions)})
 		}
 	}
-	addT(kv.KeyWithTs([]byte{0}, math.MaxUint64))
-	addT(kv.KeyWithTs(bytes.Repeat([]byte{0xff}, 8), 0))
-	maxTargets := 90
+	addT(sstTarget{Idx: -1, Base: "00", Ver: math.MaxUint64})
+	addT(sstTarget{Idx: -1, Base: "ffffffffffffffff", Ver: 0})
 	if len(targets) > maxTargets {
 		r.Shuffle(len(targets), func(i, j int) { targets[i], targets[j] = targets[j], targets[i] })
 		targets = targets[:maxTargets]
 	}
 	for _, t := range targets {
-		h := hex.EncodeToString(t)
-		mv := uint64(0)
 		switch r.Intn(6) {
 		case 0:
-			mv = kv.ParseTs(t)
+			t.MaxVs = t.Ver
 		case 1:
-			mv = corr.Pick(r, sstVersions)
+			t.MaxVs = corr.Pick(r, sstVersions)
 		}
-		d.Targets = append(d.Targets, sstTarget{Key: h, MaxVs: mv})
+		d.Targets = append(d.Targets, t)
 	}
 	return d
 }
@@ -378,7 +397,7 @@ func genSstDesc(r *rand.Rand, maxEntries int) *sstDesc {
 func runSst(c *corr.Ctx) error {
 	c.Meta("run_module", "RunSst")
 	c.Meta("exhaustive", false)
-	c.Meta("rule", "random sorted entry sets (1..60 entries quick, ..250 thorough; user keys over {a,b,00,ff} with optional long shared prefix, with and without CF marker; 11 versions incl. 0 and 2^64-1; values 0..5000 bytes; meta/expiry at varint boundaries), block sizes {40,64,100,150,256,4096}, bloom fp {0,0.0001,0.01,0.3}; targets = every stored key, version +-1, max, 0, key++00, key minus last byte, random; Search(maxVs 0 / own version / random), Seek+3*Next both directions, full iteration both directions, block index, bloom bytes; all repeated after reopening the file. non-trivial = >= 2 blocks and at least one forward seek target strictly between the last key of a block and the next base key")
+	c.Meta("rule", "random sorted entry sets (1..24 entries, every 40th case up to 120; user keys over {a,b,00,ff} with optional long shared prefix, with and without CF marker; 11 versions incl. 0 and 2^64-1; values 0..40 bytes, sometimes 300 or 4200; meta/expiry at varint boundaries), block sizes {40,64,100,150,256,4096}, bloom fp {0,0.0001,0.01,0.3}; targets = every stored key, version +-1, max, 0, key++00, key minus last byte, random; Search(maxVs 0 / own version / random), Seek+3*Next both directions, full iteration both directions, block index, bloom bytes; all repeated after reopening the file. non-trivial = >= 2 blocks and at least one forward seek target strictly between the last key of a block and the next base key")
 	if c.Replay != "" {
 		cases, err := c.ReplayCases()
 		if err != nil {
@@ -411,8 +430,7 @@ func runSst(c *corr.Ctx) error {
 		}
 		for i := 0; i < 4; i++ {
 			for _, v := range []uint64{10, 9, 5, 3, 2} {
-				h := hex.EncodeToString(kv.KeyWithTs([]byte{byte('a' + i)}, v))
-				d.Targets = append(d.Targets, sstTarget{Key: h})
+				d.Targets = append(d.Targets, sstTarget{Idx: 2 * i, Ver: v})
 			}
 		}
 		cs, err := sstCase(c, d)
@@ -421,13 +439,13 @@ func runSst(c *corr.Ctx) error {
 		}
 		c.Emit(cs)
 	}
-	n := c.Scale(120, 2500)
-	maxEntries := 60
-	if c.Tier == "thorough" {
-		maxEntries = 250
-	}
+	n := c.Scale(110, 4700)
 	for i := 0; i < n; i++ {
-		d := genSstDesc(c.Rng, maxEntries)
+		maxEntries, maxTargets := 24, 30
+		if i%40 == 39 {
+			maxEntries, maxTargets = 120, 100 // a few large tables
+		}
+		d := genSstDesc(c.Rng, maxEntries, maxTargets)
 		cs, err := sstCase(c, d)
 		if err != nil {
 			b, _ := json.Marshal(d)
